@@ -217,9 +217,6 @@ func init() {
 }
 
 func evalC11Decode(c *engine.Ctx, f decodeFn, t ref.Transform, wire bool) {
-	if wire && t.HasAttr && t.AType >= 0x8000 {
-		return // the wire field has 15 bits: such a type exists only in a caller's own struct (direct decode)
-	}
 	c.Evals++
 	cs := func() c11Case { return c11Case{K: "decode", Fn: f.name, T: t, Wire: wire} }
 	lt := libTransform(t)
@@ -306,11 +303,7 @@ func c11AttrClasses(t uint8, id uint16, thorough bool) []ref.Transform {
 	for _, at := range []uint16{0, 13, 15, 0x7fff} {
 		out = append(out, tvv(at, 128))
 	}
-	// attribute types that only a caller's own struct can hold (the wire field has 15 bits): the format bit inside
-	// the type field is not "type 14"
-	for _, at := range []uint16{0x800e, 0x808e, 0xc00e, 0xff0e, 0xffff} {
-		out = append(out, tvv(at, 128), tvv(at, 192), tvv(at, 256))
-	}
+
 	ks := []int{1, 2, 255}
 	if thorough || (t == 1 && id == ref.EncrAESCBC) {
 		ks = nil
